@@ -344,3 +344,63 @@ class Borrows:
         for (g, gbox, gmut) in st.guards:
             eng.violate("BRW-3", "guard-escapes", "a guard on the link table of %s is still live when the function returns" % (show(gbox) if gbox else "?"), ev.b, st)
         return None
+
+
+class GuardDrop:
+    """GUARD-1: the Drop impl of a type of this crate (a guard) that releases or frees the allocation one of its fields
+    points to must first have emptied every field of the guard whose own drop glue can run user code: the glue of the
+    fields runs *after* `Drop::drop`, i.e. after the release -- on the normal path the field may always be empty, but
+    while unwinding out of a destructor it need not be."""
+    id = "GUARD"
+
+    EMPTIERS = ("core::option::Option::<T>::take", "core::mem::take", "core::mem::replace", "core::mem::ManuallyDrop::<T>::take",
+                "core::mem::ManuallyDrop::<T>::drop", "core::ptr::read", "core::ptr::drop_in_place", "alloc::vec::Vec::<T, A>::clear",
+                "alloc::vec::Vec::<T, A>::drain", "core::mem::swap")
+
+    def __init__(self, adt, fields):
+        self.adt = adt
+        self.fields = fields          # names of fields whose drop glue can run user code
+        self.short = adt.rsplit("::", 1)[-1]
+
+    def _field_of_self(self, e):
+        """name of the field of *self that expression e is (a reference to / a place inside)"""
+        x = e
+        for _ in range(6):
+            if x[0] in ("ref", "deref"):
+                x = x[1]
+                continue
+            if x[0] == "field" and x[1][0] in ("deref", "param") and mentions(x[1], lambda y: y == ("param", 1)) and (len(x) < 4 or x[3] in ("", self.adt)):
+                return x[2]
+            if x[0] in ("field", "variant"):
+                x = x[1]
+                continue
+            break
+        return None
+
+    def on_event(self, eng, ev, st):
+        if ev.kind in ("pure", "extcall", "moveout", "vec") and ev.get("callee") in self.EMPTIERS:
+            args = ev.get("args") or ()
+            for a in args[:2]:
+                f = self._field_of_self(a)
+                if f is not None:
+                    return add(st, ("emptied", f))
+        return None
+
+    def _release(self, eng, ev, st, box, what):
+        if box is None or not mentions(box, lambda y: y == ("param", 1)):
+            return None
+        eng.obl("GUARD-1", "release-in-guard-drop", ev.b)
+        for f in self.fields:
+            if ("emptied", f) not in st.flags:
+                eng.violate("GUARD-1", "release-before-own-fields:%s.%s" % (self.short, f),
+                            "`Drop for %s` %s the allocation its pointer field names while its field `%s` may still hold values whose destructors run afterwards (the drop glue of the fields runs after `Drop::drop`): "
+                            "while unwinding out of a destructor, user values are destroyed after their allocations were released" % (self.short, what, f), ev.b, st)
+        return None
+
+    def on_set(self, eng, ev, st):
+        if ev.field == "weak" and ev.cls == "dec":
+            return self._release(eng, ev, st, ev.box, "releases the implicit weak reference of")
+        return None
+
+    def on_free(self, eng, ev, st):
+        return self._release(eng, ev, st, ev.ptr, "frees")
